@@ -145,6 +145,7 @@ pub fn cfgfield(toks: &[&str]) -> String {
         "string" => show(config::parse_string("x", &y), |s| hex(s.as_bytes())),
         "search" => show(config::parse_search_domain("x", &y), |s| hex(s.as_bytes())),
         "strarray" => show(config::parse_array("x", &y, config::parse_string), |v| v.iter().map(|s| hex(s.as_bytes())).collect::<Vec<_>>().join(",")),
+        "sockaddr" => show(config::parse_string_sockaddr("x", &y), |_| "addr".to_string()),
         "typename" => format!("ok:{}", hex(config::type_to_name(&y).as_bytes())),
         k => panic!("harness: kind {}", k),
     }
